@@ -4,7 +4,7 @@
    complex is exactly the clique family, it contains the source with its names, it is well formed,
    and taking the flag complex again adds nothing.  growFlagComplex = rebuild: tested only. *)
 From Coq Require Import String ZArith Bool Arith List.
-From SV Require Import Names Rep Complex Homology Filtration Gen World Small Sweeps NamesFacts RepInv Shapes FlagExt VInv DD MinCycle FlagSound FlagComplete.
+From SV Require Import Names Rep Complex Homology Filtration Gen World Small Sweeps NamesFacts RepInv Shapes FlagExt VInv DD MinCycle FlagSound FlagComplete CopyOk VRProofs FlagFinal.
 
 Theorem C11_flag_is_clique_complex_upto4_partial : forall c, In c complexes4 -> chk_flag (build c) = true.
 Proof. exact flag_upto4. Qed.
@@ -61,24 +61,31 @@ Theorem C11_grow_simplices_sit_on_cliques :
 Proof. exact growFlagComplex_sound. Qed.
 Print Assumptions C11_grow_simplices_sit_on_cliques.
 
-(* THE STATEMENT OF C11, for every complex that meets the vertex-set reading (once the working copy
-   flagComplex starts from has been made -- that `copy()` succeeds is tested, not proved): flagComplex
-   ends normally, its result meets the reading again, and a set B of two or more points carries a
-   simplex of the result EXACTLY WHEN every two points of B are joined by an edge of the source.
-   (Found while proving this: the loop bound `maxk = k` of `_completePotentialSimplices` could be
-   lowered by a fill at a low order, so that higher orders were never visited -- repaired in /repo,
-   fix 31adc94; the proof needs the invariant "no simplex above maxk".) *)
+(* THE STATEMENT OF C11, for every complex that meets the vertex-set reading: flagComplex ends normally,
+   its result meets the reading again, and a set B of two or more points carries a simplex of the result
+   EXACTLY WHEN every two points of B are joined by an edge of the source.
+   (Found while proving this: the loop bound `maxk = k` of `_completePotentialSimplices` could be lowered by a
+   fill at a low order, so that higher orders were never visited -- repaired in /repo, fix 31adc94; the proof
+   needs the invariant "no simplex above maxk".) *)
 Theorem C11_flag_complex_is_the_clique_complex :
-  forall hp src uid hp1 c, vinv src -> copy_new hp (view_of src) uid = (hp1, c, Ok tt) ->
-  exists r', flagComplex hp src uid = (hp1, r', Ok tt) /\ vinv r' /\
+  forall hp src uid, vinv src ->
+  exists hp1 r', flagComplex hp src uid = (hp1, r', Ok tt) /\ vinv r' /\
     forall B, NoDup B -> 2 <= length B -> (carried r' B <-> clique src B).
-Proof. exact flagComplex_is_clique_complex. Qed.
+Proof. exact flag_complex_is_clique_complex. Qed.
 Print Assumptions C11_flag_complex_is_the_clique_complex.
 
 (* "whenever all facets of a possible simplex are present the simplex is too" *)
 Theorem C11_facets_present_simplex_present :
-  forall hp src uid hp1 c, vinv src -> copy_new hp (view_of src) uid = (hp1, c, Ok tt) ->
-  exists r', flagComplex hp src uid = (hp1, r', Ok tt) /\
+  forall hp src uid, vinv src ->
+  exists hp1 r', flagComplex hp src uid = (hp1, r', Ok tt) /\
     forall B, NoDup B -> 3 <= length B -> (forall x, In x B -> carried r' (drop x B)) -> carried r' B.
-Proof. exact flagComplex_fills_facets. Qed.
+Proof. exact flag_complex_fills_facets. Qed.
 Print Assumptions C11_facets_present_simplex_present.
+
+(* "taking the flag complex again adds nothing" *)
+Theorem C11_flag_complex_idempotent :
+  forall hp src uid hp1 r1 hp' uid', vinv src -> flagComplex hp src uid = (hp1, r1, Ok tt) ->
+  exists hp2 r2, flagComplex hp' r1 uid' = (hp2, r2, Ok tt) /\
+    forall B, NoDup B -> 2 <= length B -> (carried r2 B <-> carried r1 B).
+Proof. exact flag_complex_idempotent. Qed.
+Print Assumptions C11_flag_complex_idempotent.
